@@ -57,6 +57,61 @@ class ProofVal:
         self.hs = hs
 
 
+class JsonVal:
+    """a BLOB holding the JSON text of a Go value: kept as a deep snapshot of the value (the text itself is never inspected)"""
+    __slots__ = ("tid", "snap")
+
+    def __init__(self, tid, snap):
+        self.tid, self.snap = tid, snap
+
+
+def json_snap(eng, st, v, tid):
+    """deep snapshot of a Go value (pointers and slices followed), as encoding/json would serialise it"""
+    u = eng.ir.under(tid)
+    k = u["k"]
+    if k == "ptr":
+        if v is None:
+            return None
+        return ("ptr", json_snap(eng, st, eng.load(st, v), u["elem"]))
+    if k == "struct":
+        return ("struct", tuple(json_snap(eng, st, x, f["t"]) for x, f in zip(v, u["fields"])))
+    if k == "slice":
+        if v is None or v is NIL_SLICE:
+            return None
+        return ("slice", tuple(json_snap(eng, st, x, u["elem"]) for x in eng.slice_elems(st, v)))
+    if k == "array":
+        return ("array", tuple(json_snap(eng, st, x, u["elem"]) for x in v))
+    if k == "map":
+        if v is None:
+            return None
+        gm = st.heap[v.obj]
+        if gm.length() == 0:
+            return ("emptymap",)
+        raise Unsupported("JSON of a non-empty map")
+    if k in ("basic",):
+        return ("val", v)
+    raise Unsupported("JSON of %s" % tid)
+
+
+def json_restore(eng, st, sn, tid):
+    u = eng.ir.under(tid)
+    k = u["k"]
+    if sn is None:
+        return eng.zero(tid)
+    tag = sn[0]
+    if tag == "ptr":
+        return eng.alloc_val(st, u["elem"], json_restore(eng, st, sn[1], u["elem"]))
+    if tag == "struct":
+        return tuple(json_restore(eng, st, x, f["t"]) for x, f in zip(sn[1], u["fields"]))
+    if tag == "slice":
+        return eng.new_slice(st, u["elem"], tuple(json_restore(eng, st, x, u["elem"]) for x in sn[1]))
+    if tag == "array":
+        return tuple(json_restore(eng, st, x, u["elem"]) for x in sn[1])
+    if tag == "emptymap":
+        return eng.zero(tid)
+    return sn[1]
+
+
 class CondSqlErr(Exception):
     """the statement fails with `err` iff cond; `tabs` is the table map afterwards in both cases"""
 
@@ -1033,7 +1088,7 @@ def go_to_sql(eng, st, v, tid, codec=None):
     if codec == "aggchainproof":
         if v is None:
             return BytesVal(tuple(b"null"), "blob")  # json.Marshal of a nil pointer
-        raise Unsupported("aggchainproof codec with a non-nil proof")
+        return JsonVal(tid, json_snap(eng, st, v, tid))
     if codec in ("zeroisnull",):
         z = eng.zero(tid)
         if v == z and not is_sym(v):
@@ -1111,6 +1166,8 @@ def sql_to_go(eng, st, v, tid, codec=None, colname="?"):
     if codec == "aggchainproof":
         if v is None or (isinstance(v, BytesVal) and v.bs == tuple(b"null")):
             return None
+        if isinstance(v, JsonVal):
+            return json_restore(eng, st, v.snap, v.tid)
         raise Unsupported("aggchainproof codec reading %r" % (v,))
     if codec in ("zeroisnull",):
         if v is None:
